@@ -102,7 +102,8 @@ def sweep(plan, worker_fn, nshards=64):
     return pmap(run, jobs)
 
 
-def standard_plan(tier, chains_lo, chains_hi=None, held_lo='small', held_hi='two', actions=None, sigma_hi='reduced'):
+def standard_plan(tier, chains_lo, chains_hi=None, held_lo='small', held_hi='two', actions=None, sigma_hi='reduced',
+                  quick_hi_max_cells=9):
     """the default universe for the dynamics properties: (i) every grid with <=1 non-floor cell over the full
     alphabet with the full chain list; (ii) grids with exactly 2 (thorough: also 3) non-floor cells with the
     reduced chain list chains_hi"""
@@ -114,7 +115,8 @@ def standard_plan(tier, chains_lo, chains_hi=None, held_lo='small', held_hi='two
     if tier == 'quick':
         for sh in U.SHAPES_SMALL:
             plan.append(dict(shape=sh, sigma='full', k=1, held=held_lo, chains=chains_lo, actions=actions))
-            plan.append(dict(shape=sh, sigma=sigma_hi, k=2, held=held_hi, chains=chains_hi, actions=actions, only_k=2))
+            if sh[0] * sh[1] <= quick_hi_max_cells:
+                plan.append(dict(shape=sh, sigma=sigma_hi, k=2, held=held_hi, chains=chains_hi, actions=actions, only_k=2))
     else:
         for sh in U.SHAPES_MID:
             plan.append(dict(shape=sh, sigma='full', k=1, held=held_lo, chains=chains_lo, actions=actions))
